@@ -12,3 +12,6 @@ def run(ctx):
         ic.rule_loop_state(ctx, cfg, r2)
         r3 = ctx.rule("R07.3" + sfx, "HasMoreOutput overrides NeedsMoreInput when the output window is full", floor=1, config=cfg)
         ic.rule_override(ctx, cfg, r3)
+        r5 = ctx.rule("R07.5" + sfx, "multi-byte fields (zlib trailer, stored-block header) are collected through a persisted counter, one byte per step", floor=6, config=cfg)
+        ic.rule_counted_bytes(ctx, cfg, r5)
+        ic.rule_counted_bytes(ctx, cfg, r5, arm="RawHeader", limit=4, acc_field=None)
